@@ -57,6 +57,10 @@ def ref_basis(cfg):
     single = {"Q": pauli(True), "T": gell_mann()}
     if cfg == "Q1u":
         return pauli(False)
+    if cfg == "Q2x":
+        P = pauli(True)
+        first = [P[1], P[0], P[2], P[3]]
+        return [np.kron(a, b) for a in first for b in P]
     if cfg == "Q1x":
         P = pauli(True)
         return [P[1], P[0], P[2], P[3]]
